@@ -405,3 +405,35 @@ func (c *fctx) regionExprQuiet(e ast.Expr) (pre []string, term string, root *abs
 	}
 	return nil, "", nil
 }
+
+// ---------- methods of abstract objects that store into a []byte argument ----------
+
+// Trusted: the method stores into the listed []byte parameter (its final contents are a result of the
+// model) and keeps no reference to it; it does not store into any other argument.
+var mutatingMethods = map[string][]int{
+	"(" + modPath + "protocol/thrift.FastCodec).FastWriteNocopy": {0},
+	"(semtest/sem.Codec).WriteTo":                                {0}, // the translator's differential self-test
+}
+
+func methodStoresInto(fn *types.Func, i int) bool {
+	for _, j := range mutatingMethods[fn.Origin().FullName()] {
+		if i == j {
+			return true
+		}
+	}
+	return false
+}
+
+func calleeOf(info *types.Info, call *ast.CallExpr) *types.Func {
+	var id *ast.Ident
+	switch f := ast.Unparen(call.Fun).(type) {
+	case *ast.Ident:
+		id = f
+	case *ast.SelectorExpr:
+		id = f.Sel
+	default:
+		return nil
+	}
+	fn, _ := info.Uses[id].(*types.Func)
+	return fn
+}
